@@ -498,3 +498,119 @@ class InformAsyncInGraph(InformLoopInGraph):
 
 
 ALL += [InformLoopInGraph, InformAsyncInGraph]
+
+
+# --------------------------------------------------------------------------- get_io_loop (C19)
+class GetIoLoop(Contract):
+    """get_io_loop(asynchronous): asynchronous callers get THEIR loop (IOLoop.current()) whatever else exists (a dask client, the
+    shared background loop) and start no thread; blocking callers get the dask client's loop if a default client exists, else the
+    one shared background loop, which is created (with its thread) at most once."""
+    file = CORE
+    files = [CORE]
+    qual = 'get_io_loop'
+    props = ['C19']
+    dask_client = 'none'         # 'none' (module attribute is None) | 'absent' (getter raises ValueError) | 'present'
+    assumptions = ('IOLoop.current() is the loop of the calling thread/coroutine; IOLoop(make_current=False) is a fresh loop; '
+                   'threading.Thread(target=loop.start).start() runs that loop in a background thread (tornado/CPython, trusted)',
+                   'distributed.client.default_client() returns the default client or raises ValueError (trusted)')
+
+    def __init__(self):
+        self.name = 'get_io_loop[dask default client: %s]' % self.dask_client
+        Contract.__init__(self)
+
+    def build(self, I):
+        st = State()
+        I.st = st
+        g = st.ghost
+        g['threads_started'] = VInt(0)
+        g['client_consulted'] = VInt(0)
+        g['loops_created'] = VInt(0)
+        g['current_loop'] = VRef(z3.Const('current_loop', sym.Obj), 'IOLoop')
+        g['client_loop'] = VRef(z3.Const('client_loop', sym.Obj), 'IOLoop')
+        L = z3.Const('io_loops0', sym.SeqObjS)
+        st.assume(z3.Length(L) <= 1)             # the shared loop is created at most once (invariant of the module state)
+        loops = st.new_list(L, K_OBJ)
+        g['io_loops0'] = VSeq(L, K_OBJ)
+        g['io_loops_obj'] = loops
+        I.globals['_io_loops'] = loops
+        I.globals['_dask_default_client'] = NONE if self.dask_client == 'none' else sym.VBuiltin('dask_default_client')
+        a = VElem(z3.Const('asynchronous', sym.Elem))
+        self.pre_args = {'asynchronous': a}
+        self.pre_state = st.snapshot()
+        g['_pre'] = (self.pre_state, self.pre_args)
+        I.contract_pre = self.pre_state
+        I.contract_pre_frame = self.pre_frame(I)
+        return None, [a], {}
+
+    def globals(self):
+        return {'IOLoop': sym.VBuiltin('IOLoop'), 'threading': sym.VBuiltin('threading')}
+
+    def spec_funcs(self):
+        def current(I, args, kwargs, fr):
+            return I.st.ghost['current_loop']
+
+        def new_loop(I, args, kwargs, fr):
+            g = I.st.ghost
+            g['loops_created'] = VInt(g['loops_created'].t + 1)
+            lp = VRef(z3.Const(sym.fresh_name('new_loop'), sym.Obj), 'IOLoop')
+            I.st.assume(lp.t != g['current_loop'].t)
+            I.st.assume(lp.t != g['client_loop'].t)
+            g['new_loop'] = lp
+            return lp
+
+        def thread(I, args, kwargs, fr):
+            t = I.st.new_obj('Thread', {'target': kwargs.get('target', NONE), 'daemon': VBool(False)})
+            return t
+
+        def default_client(I, args, kwargs, fr):
+            g = I.st.ghost
+            g['client_consulted'] = VInt(g['client_consulted'].t + 1)
+            if self.dask_client == 'absent':
+                raise PyRaise(VExc('ValueError'))
+            return I.st.new_obj('Client', {'loop': g['client_loop']})
+
+        def implies_(I, a, b):
+            return VBool(z3.Implies(I.truth(a), I.truth(b)))
+
+        def truthy(I, v):
+            return VBool(I.truth(v))
+
+        def io_loops(I):
+            return I.st.ghost['io_loops_obj']
+        return {'builtin_IOLoop.current': current, 'builtin_IOLoop': new_loop, 'builtin_threading.Thread': thread,
+                'builtin_dask_default_client': default_client, 'implies': implies_, 'truthy': truthy, 'io_loops': io_loops}
+
+    def summaries(self):
+        def start(I, recv, args, kwargs):
+            g = I.st.ghost
+            g['threads_started'] = VInt(g['threads_started'].t + 1)
+            return NONE
+        return {'Thread.start': start}
+
+    def clauses(self):
+        cl = [Clause('C19.asynchronous_caller_gets_its_own_loop_and_no_thread', ['C19'], when='return',
+                     text='implies(truthy(asynchronous), result is current_loop and threads_started == 0 and loops_created == 0 '
+                          'and list(io_loops()) == io_loops0)',
+                     note='an asynchronous pipeline never leaves the caller\'s loop, even when a dask client or a background loop exists'),
+              Clause('C19.shared_background_loop_is_created_at_most_once', ['C19'], when='return',
+                     text='len(io_loops()) <= 1 and threads_started == loops_created and '
+                          'implies(len(io_loops0) == 1, loops_created == 0 and list(io_loops()) == io_loops0)'),
+              Clause('C19.get_io_loop_does_not_fail', ['C19'], when='raise', text='False')]
+        if self.dask_client == 'present':
+            cl.append(Clause('C19.blocking_caller_shares_the_dask_clients_loop', ['C19', 'C20'], when='return',
+                             text='implies(not truthy(asynchronous), result is client_loop and threads_started == 0)'))
+        else:
+            cl.append(Clause('C19.blocking_caller_gets_the_shared_background_loop', ['C19'], when='return',
+                             text='implies(not truthy(asynchronous), len(io_loops()) == 1 and result is io_loops()[0])'))
+        return cl
+
+
+class GetIoLoopClientAbsent(GetIoLoop):
+    dask_client = 'absent'
+
+
+class GetIoLoopClientPresent(GetIoLoop):
+    dask_client = 'present'
+
+
+ALL += [GetIoLoop, GetIoLoopClientAbsent, GetIoLoopClientPresent]
